@@ -147,7 +147,9 @@ def classify(diags, meta):
             if not is_verif:
                 fatal.append(d)
                 continue
-            if pm.get('part') == 'hint':
+            if pm.get('part') == 'await':
+                rec.update(fn=pm['fn'], kind='await', clause=pm.get('clause'), tags=['C13'])
+            elif pm.get('part') == 'hint':
                 rec.update(fn=pm['fn'], kind='hint', clause='hint.%s' % pm.get('clause'), tags=None)
             elif pm.get('part') == 'twin':
                 rec.update(fn=pm['fn'], kind='twin', clause='twin', tags=None)
